@@ -703,6 +703,9 @@ class MarkdownNormalizer(Renderer):
         from marko.ext.pangu import PANGU_RE
 
         text = re.sub(PANGU_RE, " ", element.children)
+        # Paragraph text has its whitespace runs collapsed by the line wrapper; headings and
+        # table cells are not wrapped, so it is done here for all text alike.
+        text = re.sub(r"[ \t]+", " ", text)
         self._current_inline_text += text
         return text
 
